@@ -282,6 +282,16 @@ Fixpoint sd_trace (n : nat) (s : vec * bool) : list vec :=
   end.
 End SteepestDescent.
 
+(* ======================================================== DCA and proximal DCA *)
+Section DCA.
+Variables (gradfcc gradg proxf : vec -> vec) (gamma : T).
+(* dca:       f_convex_conj.gradient(g.gradient(x), out=x) *)
+Definition dca_step (x : vec) : vec := gradfcc (gradg x).
+(* prox_dca:  f.proximal(gamma)(x.lincomb(1, x, gamma, g.gradient(x)), out=x) *)
+Definition prox_dca_step (x : vec) : vec :=
+  let x := vlin none_ x gamma (gradg x) in proxf x.
+End DCA.
+
 (* ================================================ Douglas-Rachford primal-dual *)
 Section DouglasRachford.
 (* one entry per (L[i], g[i], sigma[i], optional l[i]) *)
